@@ -4,6 +4,7 @@ import (
 	"bytes"
 	"encoding/binary"
 	"errors"
+	"math"
 	"time"
 
 	ps "github.com/prometheus/client_golang/prometheus"
@@ -32,6 +33,7 @@ var errInvalidAggregate = errors.New("invalid aggregate")
 var errInvalidWeightNum = errors.New("invalid weight number")
 var errInvalidSrcKeyNum = errors.New("invalid src key number")
 var errScoreMiss = errors.New("missing score for zset")
+var errScoreNaN = errors.New("resulting score is not a number (NaN)")
 
 const (
 	zsetKeySep   byte = ':'
@@ -545,6 +547,9 @@ func (db *RockDB) ZIncrBy(ts int64, key []byte, delta float64, member []byte) (f
 	}
 
 	score = oldScore + delta
+	if math.IsNaN(score) {
+		return 0, errScoreNaN
+	}
 	if v != nil && score == oldScore {
 		// nothing changes (the delete of the old score key below would
 		// remove the score key just written)
